@@ -851,10 +851,14 @@ class SCFG2ASTTransformer:
         if type(block) is PythonASTBlock:
             if len(block.jump_targets) == 2:
                 test: ast.expr
-                if type(block.tree[-1]) in (ast.Name, ast.Compare):
-                    test = cast(ast.expr, block.tree[-1])
+                if isinstance(block.tree[-1], ast.Expr):
+                    # an expression statement (e.g. the desugared for-loop
+                    # header): the test is the expression it wraps
+                    test = block.tree[-1].value
                 else:
-                    test = cast(ast.Expr, block.tree[-1]).value
+                    # a bare expression of any kind (name, comparison, call,
+                    # attribute, subscript, constant, unary operation, ...)
+                    test = cast(ast.expr, block.tree[-1])
                 body: list[ast.stmt] = cast(
                     list[ast.stmt],
                     self.codegen(self.lookup(block.jump_targets[0])),
